@@ -176,17 +176,37 @@ def save_load(sol, name, out):
             return
         out["probes"]["saved_and_loaded"] += 1
         keys = [k for k in sol.__dict__ if k not in ("system", "solver_summary")]
-        for k in keys:
-            a, b = getattr(sol, k), getattr(back, k, "missing")
-            if a is None:
-                same = b is None
-            elif isinstance(b, str):
-                same = False
-            else:
-                same = np.asarray(a).shape == np.asarray(b).shape and np.array_equal(np.asarray(a), np.asarray(b))
-            if not same:
-                out["violations"].append(violation("save_load", f"{name}.{k}", f"field {k} is not preserved by save -> load"))
-                return
+
+        def compare(orig, loaded, what):
+            for k in keys:
+                a, b = getattr(orig, k), getattr(loaded, k, "missing")
+                if a is None:
+                    same = b is None
+                elif isinstance(b, str):
+                    same = False
+                else:
+                    same = np.asarray(a).shape == np.asarray(b).shape and np.array_equal(np.asarray(a), np.asarray(b), equal_nan=True)
+                if not same:
+                    out["violations"].append(violation("save_load", f"{name}.{k}" + ("" if what == "first" else "/overwritten_file"), f"field {k} is not preserved by save -> load ({what})"))
+                    return False
+            return True
+
+        if not compare(sol, back, "first"):
+            return
+        # the file is overwritten by a different solution (first half of the instants) and loaded again
+        from cardillo.solver import Solution, save_solution
+
+        h = max(len(sol.t) // 2, 1)
+        fields = {k: (None if getattr(sol, k) is None else np.asarray(getattr(sol, k))[:h].copy()) for k in keys}
+        sol2 = Solution(system=sol.system, **fields)
+        try:
+            save_solution(sol2, path)
+            back2 = load_solution(path)
+        except Exception as e:
+            out["violations"].append(violation("save_load", name + "/overwritten_file", f"second save/load to the same file raised {type(e).__name__}: {e}"))
+            return
+        out["probes"]["saved_over_existing_file"] += 1
+        compare(sol2, back2, "same file overwritten by a different solution")
     finally:
         shutil.rmtree(d, ignore_errors=True)
 
